@@ -653,11 +653,11 @@ func c09Mix(seed int64) int64 {
 }
 
 // c09GenRace: the concurrency stress op on the domain / forward / agent tables (see c08GenRace).
-func c09GenRace(w *bufio.Writer, r *rng) {
+func c09GenRace(w *bufio.Writer, r *rng, kind int) {
 	fmt.Fprintln(w, "reset 1")
 	hx := func(s string) string { return hexTok([]byte(s)) }
 	o := 2 + r.intn(3)
-	switch r.intn(6) {
+	switch kind % 6 {
 	case 0:
 		fmt.Fprintf(w, "race %d | dadv %s %d %d %d 1 %d\n", r.pick(2, 4, 8), hx("*.Race.test"), 2+r.intn(3), o, 1+r.intn(5), o)
 		fmt.Fprintf(w, "dlook %s\ndrm %s %d\ndlook %s\ndhas %s %d\ndsize\n", hx("a.race.TEST"), hx("*.race.test"), o, hx("a.race.TEST"), hx("*.race.test"), o)
@@ -878,7 +878,7 @@ func c09Gen(w *bufio.Writer, seed int64, tier string) {
 		races = 60
 	}
 	for c := 0; c < races; c++ {
-		c09GenRace(w, r)
+		c09GenRace(w, r, c)
 	}
 	cases, nops := 180, 50
 	if tier == "thorough" {
